@@ -38,7 +38,7 @@ type C03Plan struct {
 }
 
 var c03Readers = []string{"fasta", "fastq", "bed3", "bed4", "bed5", "bed6", "bed12", "gff", "gff", "gff-notimeformat", "fasta-picky", "fastq-picky",
-	"fastq-solexa", "fastq-illumina1.3", "fastq-illumina1.8"}
+	"fastq-solexa", "fastq-illumina1.3", "fastq-illumina1.8", "fasta-idprefix"}
 
 // the quality encodings a FASTQ template may declare
 var fastqEncodings = map[string]alphabet.Encoding{
@@ -97,6 +97,10 @@ func openReader(kind string, src io.Reader) (func() (interface{}, error), error)
 	case "fastq-solexa", "fastq-illumina1.3", "fastq-illumina1.8":
 		r := fastq.NewReader(src, linear.NewQSeq("", nil, alphabet.DNA, fastqEncodings[kind]))
 		return func() (interface{}, error) { s, err := r.Read(); return s, err }, nil
+	case "fasta-idprefix":
+		r := fasta.NewReader(src, linear.NewSeq("", nil, alphabet.DNA))
+		r.IDPrefix = []byte(">gi|") // a public field: headers carry a longer marker
+		return func() (interface{}, error) { s, err := r.Read(); return s, err }, nil
 	case "fasta-picky":
 		r := fasta.NewReader(src, pickySeq{linear.NewSeq("", nil, alphabet.DNA)})
 		return func() (interface{}, error) { s, err := r.Read(); return s, err }, nil
@@ -129,15 +133,93 @@ func countLines(b []byte) int {
 	return n
 }
 
+// C03Group: several inputs read by independent readers on different
+// goroutines, as clients of the simulator (which switches at every call into
+// a medium and watches the woven packages' shared state).
+type C03Group struct {
+	Plans []C03Plan `json:"plans"`
+}
+
+func runC03Group(t *testing.T, c *Case, o RunOpts) *Result {
+	noteCase(c)
+	defer progress.Add(1)
+	var g C03Group
+	if err := json.Unmarshal(c.Plan, &g); err != nil {
+		return &Result{ToolErr: err.Error()}
+	}
+	return execSim(t, c, o, 400000, false, func(sim *simrt.Sim) func() {
+		yield := func() { sim.Yield("medium") }
+		for i := range g.Plans {
+			i := i
+			sim.Client(fmt.Sprintf("reader%d", i), func() {
+				res := c03Body(&g.Plans[i], yield)
+				if v := res.Viol; v != nil {
+					sim.Fail(v.Class, v.Site+"-concurrent-instances", fmt.Sprintf("%d independent readers on different goroutines, reader %d: %s", len(g.Plans), i, v.Text))
+				}
+			})
+		}
+		return nil
+	})
+}
+
+func genC03Group(r *simrt.RNG) *Case {
+	var g C03Group
+	same := c03Readers[r.Intn(len(c03Readers))]
+	if r.Intn(4) == 0 {
+		// keyword arguments in spellings this process may not have met yet
+		// (anything a reader memoises is shared between readers)
+		for n := r.Range(2, 3); n > 0; n-- {
+			var buf bytes.Buffer
+			for k := r.Range(1, 3); k > 0; k-- {
+				fmt.Fprintf(&buf, "##%s %s%s\n", []string{"Type", "type", "sequence-region", "DNA"}[r.Intn(4)],
+					mangleCase(r, []string{"DNA", "RNA", "Protein", "chr"}[r.Intn(4)]), []string{"", " x", " x 1 9"}[r.Intn(3)])
+			}
+			buf.WriteString("seq\tsrc\tfeat\t1\t5\t.\t+\t.\n")
+			g.Plans = append(g.Plans, C03Plan{Reader: "gff", Input: buf.Bytes(), Delivery: simio.NoFault("all", 0)})
+		}
+		return &Case{Prop: "C03", Kind: "group", Plan: marshalPlan(g),
+			Sched: Sched{Strategy: fmt.Sprintf("rw:%g", []float64{0.2, 0.5, 1}[r.Intn(3)]), Seed: r.Uint64()}}
+	}
+	for n := r.Range(2, 3); n > 0; n-- {
+		reader, input, _, _, _ := genC03Input(r)
+		if r.Bool() && fmtOf(reader) != fmtOf(same) {
+			// more often than not the same kind of reader several times over
+			for try := 0; try < 8 && fmtOf(reader) != fmtOf(same); try++ {
+				reader, input, _, _, _ = genC03Input(r)
+			}
+		}
+		if len(input) > 600 {
+			input = input[:600]
+		}
+		g.Plans = append(g.Plans, C03Plan{Reader: reader, Input: input, Delivery: simio.NoFault([]string{"all", "uniform", "one"}[r.Intn(3)], r.Uint64())})
+	}
+	return &Case{Prop: "C03", Kind: "group", Plan: marshalPlan(g),
+		Sched: Sched{Strategy: fmt.Sprintf("rw:%g", []float64{0.2, 0.5, 1}[r.Intn(3)]), Seed: r.Uint64()}}
+}
+
 func runC03(t *testing.T, c *Case, o RunOpts) *Result {
+	if c.Kind == "group" {
+		return runC03Group(t, c, o)
+	}
 	noteCase(c)
 	defer progress.Add(1)
 	var pl C03Plan
 	if err := json.Unmarshal(c.Plan, &pl); err != nil {
 		return &Result{ToolErr: err.Error()}
 	}
-	res := &Result{Hash: planHash(c), Trivial: len(pl.Input) == 0}
+	res := c03Body(&pl, nil)
+	if res.ToolErr == "" {
+		res.Hash = planHash(c)
+	}
+	return res
+}
+
+// c03Body judges one reader on one input; onRead, if set, is the medium's yield point.
+func c03Body(plp *C03Plan, onRead func()) *Result {
+	pl := *plp
+	res := &Result{Trivial: len(pl.Input) == 0}
 	src := simio.NewSource(pl.Input, pl.Delivery)
+	src.OnRead = onRead
 	read, err := openReader(pl.Reader, src)
 	if err != nil {
 		return &Result{ToolErr: err.Error()}
@@ -304,6 +386,9 @@ func fmtOf(reader string) string {
 	if strings.HasPrefix(reader, "fastq") {
 		return "fastq"
 	}
+	if strings.HasPrefix(reader, "fasta") {
+		return "fasta"
+	}
 	return strings.TrimSuffix(reader, "-picky")
 }
 
@@ -347,7 +432,7 @@ func mangleCase(r *simrt.RNG, s string) string {
 func gffMetalines(r *simrt.RNG) []byte {
 	var buf bytes.Buffer
 	kws := []string{"gff-version", "source-version", "date", "Type", "type", "sequence-region", "DNA", "RNA", "Protein", "dna", "rna", "protein"}
-	args := []string{"", "2", "3", "x", "prog 1.0", "2020-1-02", "2020-01-02", "DNA", "DNA chr1", "Protein p", "chr1 1 100", "chr1 0 5", "chr1 -3 7", "chr1 1", "s1", "s 1"}
+	args := []string{"", "2", "3", "x", "prog 1.0", "2020-1-02", "2020-01-02", "DNA", "DNA chr1", "Protein p", "chr1 1 100", "chr1 0 5", "chr1 -3 7", "chr1 1", "s1", "s 1", "Dna", "dna", "rna x", "PROTEIN p", "Protein", "dNA"}
 	for n := r.Range(1, 5); n > 0; n-- {
 		kw := kws[r.Intn(len(kws))]
 		if r.Intn(3) == 0 {
@@ -467,7 +552,7 @@ func mutate(r *simrt.RNG, text []byte, reader string) []byte {
 		}
 		switch r.Intn(10) {
 		case 0: // flip a byte
-			b[r.Intn(len(b))] = byte(r.Pick(r.Intn(256), r.Intn(256), 0x00, 0x7f, 0x80, 0xbf, 0xc0, 0xff))
+			b[r.Intn(len(b))] = byte(r.Pick(r.Intn(256), r.Intn(256), 0x00, 0x7f, 0x80, 0x85, 0xa0, 0xbf, 0xc0, 0xff))
 		case 1: // delete a byte
 			i := r.Intn(len(b))
 			b = append(b[:i], b[i+1:]...)
@@ -484,7 +569,14 @@ func mutate(r *simrt.RNG, text []byte, reader string) []byte {
 			}
 			f := bytes.Split(lines[li], sep)
 			fi := r.Intn(len(f))
-			switch r.Intn(5) {
+			switch r.Intn(6) {
+			case 5: // a byte at the edge of the field that some classifications call blank and others do not
+				odd := []byte{byte(r.Pick(0x85, 0xa0, 0x00, 0x0b, 0x0c, 0x1f, 0x7f, 0xff, ' ', '"', '\\', ';', '='))}
+				if r.Bool() {
+					f[fi] = append(odd, f[fi]...)
+				} else {
+					f[fi] = append(append([]byte(nil), f[fi]...), odd...)
+				}
 			case 0: // delete column
 				f = append(f[:fi], f[fi+1:]...)
 			case 1: // duplicate column
@@ -759,6 +851,11 @@ func exploreC03(t *testing.T, w *Worker, r *simrt.RNG) {
 			w.Report(h, w.Guarded(h, func() *Result { return runC03(t, h, RunOpts{}) }))
 		}
 	}
+	if r.Intn(40) == 0 {
+		g := genC03Group(r)
+		w.Report(g, runC03(t, g, RunOpts{}))
+		return
+	}
 	reader, input, expect, valid, invalid := genC03Input(r)
 	d := simio.PickDelivery(r)
 	c := c03CaseV(reader, input, expect, d, valid, invalid)
@@ -799,6 +896,9 @@ func exploreC03(t *testing.T, w *Worker, r *simrt.RNG) {
 }
 
 func shrinkC03(c *Case) []*Case {
+	if c.Kind == "group" {
+		return nil
+	}
 	var pl C03Plan
 	json.Unmarshal(c.Plan, &pl)
 	var out []*Case
